@@ -25,12 +25,12 @@ LEAN = dict(
     modules=["MetadorModel.Props.C18"] +
             # one bridge module per translated function: a changed function breaks its own obligation
             ["MetadorModel.Bridge." + m for m in ["DiffType", "DiffStatus", "DiffChildren", "DiffCompare", "DiffNodes",
-                                                   "DiffGet", "Diff"]],
+                                                   "DiffGet", "Diff", "DiffLookup"]],
     theorems=[T + n for n in ["compare_none_iff", "reported_exact", "order_safe", "get_agrees",
                               "compare_none_iff_lookup", "reported_once"]] +
              # translation tie: Gen/Diff.lean (regenerated from util/diff.py on every run) = Model/Diff.lean
              [B + n for n in ["gen_type", "gen_prev_curr_type", "gen_status", "gen_children", "gen_compare",
-                              "gen_compare_top", "gen_nodes", "gen_nodes_compare", "gen_get"]],
+                              "gen_compare_top", "gen_nodes", "gen_nodes_compare", "gen_get", "gen_get_compare"]],
     drivers=["drv_dif"],
 )
 
@@ -40,7 +40,11 @@ def translate(ctx):
     import os
 
     from .. import translate_c18
-    changed = lean.write_if_changed(os.path.join(lean.LEAN, "MetadorModel", "Gen", "Diff.lean"), translate_c18.gen_diff())
+    text, errors = translate_c18.gen_diff_checked()
+    # written in any case (an untranslatable function is a stub, so that exactly its bridge theorem breaks)
+    changed = lean.write_if_changed(os.path.join(lean.LEAN, "MetadorModel", "Gen", "Diff.lean"), text)
+    if errors:
+        raise translate_c18.TranslateError("; ".join(errors))
     return "Gen/Diff.lean %s" % ("rewritten" if changed else "unchanged")
 
 
